@@ -60,3 +60,59 @@ func TestDevReplay(t *testing.T) {
 		}
 	}
 }
+
+func TestDevPlan(t *testing.T) {
+	prop := os.Getenv("PLAN")
+	if prop == "" {
+		t.Skip()
+	}
+	tier := os.Getenv("TIER")
+	if tier == "" {
+		tier = "quick"
+	}
+	plan, err := Plan(t, prop, tier, 1)
+	if err != nil {
+		t.Fatal(err)
+	}
+	t.Logf("%d runs planned", len(plan))
+	stride, _ := strconv.Atoi(os.Getenv("STRIDE"))
+	if stride == 0 {
+		stride = 1
+	}
+	sigs := map[string]int{}
+	first := map[string]RunSpec{}
+	msgs := map[string]string{}
+	n := 0
+	for i := 0; i < len(plan); i += stride {
+		v := Execute(t, plan[i])
+		n++
+		if v.Class != "" {
+			sigs[v.Sig]++
+			if _, ok := first[v.Sig]; !ok {
+				first[v.Sig] = plan[i]
+				msgs[v.Sig] = v.Msg
+			}
+		}
+	}
+	t.Logf("%d runs executed", n)
+	for s, c := range sigs {
+		b, _ := json.Marshal(first[s])
+		t.Logf("%4d x %s\n      %s\n      first: %s", c, s, msgs[s], b)
+	}
+}
+
+func TestDevSpec(t *testing.T) {
+	js := os.Getenv("SPEC")
+	if js == "" {
+		t.Skip()
+	}
+	var spec RunSpec
+	if err := json.Unmarshal([]byte(js), &spec); err != nil {
+		t.Fatal(err)
+	}
+	v := Execute(t, spec)
+	t.Logf("class=%s sig=%s\nmsg=%s\nout=%v steps=%d dec=%d sim=%dms", v.Class, v.Sig, v.Msg, v.Output, v.Steps, v.Decisions, v.SimNs/1e6)
+	for _, l := range v.LogTail {
+		t.Log(l)
+	}
+}
